@@ -468,7 +468,7 @@ class AIPDDLConverter:
         params = OrderedDict((v.name, self._variable_type(v)) for v in function.terms)
         f = Fluent(function.name, self._tm.RealType(), params, self._environment)
         self._fluents[function.name] = f
-        self._up_problem.add_fluent(f, default_initial_value=self._em.Int(0))
+        self._up_problem.add_fluent(f)
 
     def _convert_fluents(self):
         for pred in self._domain.predicates:
